@@ -221,6 +221,22 @@ func checkC10(c CaseC10, x *hx.Ctx) (fail *hx.Failure) {
 		return nil
 	}
 
+	// a second tracker lives next to the one under test: it holds one open program and must not notice the traffic
+	by := scte35.NewState()
+	byStart, f0 := c10Make(OpC10{Type: 0x10, Event: 77}, 5, true)
+	if f0 != nil {
+		return f0
+	}
+	if closed, err := by.ProcessDescriptor(byStart.obj); err != nil || len(closed) != 0 {
+		return hx.Failf("bystander", "a fresh tracker did not open a program start cleanly: %d closed, err %v", len(closed), err)
+	}
+	checkBy := func() *hx.Failure {
+		if o := by.Open(); len(o) != 1 || o[0] != byStart.obj {
+			return hx.Failf("bystander-open", "the open list of a second tracker (one program start, no further calls) has %d entries after %v", len(o), hist)
+		}
+		return nil
+	}
+
 	for _, o := range c.Ops {
 		hist = append(hist, c10OpString(o))
 		before := snapshot()
@@ -429,6 +445,9 @@ func checkC10(c CaseC10, x *hx.Ctx) (fail *hx.Failure) {
 		if f := checkOpen(); f != nil {
 			return f
 		}
+		if f := checkBy(); f != nil {
+			return f
+		}
 		for _, r := range retained {
 			for i := range r.want {
 				if i >= len(r.got) || r.got[i] != r.want[i] {
@@ -436,6 +455,13 @@ func checkC10(c CaseC10, x *hx.Ctx) (fail *hx.Failure) {
 				}
 			}
 		}
+	}
+	byEnd, f1 := c10Make(OpC10{Type: 0x11, Event: 77}, 6, true)
+	if f1 != nil {
+		return f1
+	}
+	if closed, err := by.ProcessDescriptor(byEnd.obj); err != nil || len(closed) != 1 || closed[0] != byStart.obj {
+		return hx.Failf("bystander-close", "the program end given to the second tracker closed %d descriptors (err %v), want exactly its program start, after %v", len(closed), err, hist)
 	}
 	x.NT(sawBreakaway && interesting)
 	x.LabelIf(sawBreakaway, "has-breakaway")
@@ -448,7 +474,7 @@ func checkC10(c CaseC10, x *hx.Ctx) (fail *hx.Failure) {
 var propC10 = hx.Register(hx.Prop[CaseC10]{ID: "C10", Gen: genC10, Check: checkC10})
 
 func c10Rule() {
-	hx.Rec("C10").SetRule("cases: histories of 1..40 calls on one tracker: process(new descriptor: type from a 26-type alphabet covering every rule kind plus two types without rules, weighted towards breakaway/resumption/network/unscheduled; event id 1..3; segment number/expected 0..2; sub-segment fields on 0x34/0x36; half of the 0x40 descriptors (and 1 in 16 of the others) carry a stream-switch-shaped multiple-UPID list in one of five shapes with signal id 0..2; one descriptor in eight reaches the tracker inside a decorator type; one API-built descriptor in eight has the cancel indicator set; one signal in four gets part of its time from pts_adjustment; attached to a signal whose PTS repeats the previous one (<= 5 per PTS; API-built ones then share ONE signal object, as the descriptors of one decoded section do) or advances; built through the API or by decoding a reference encoding), process(the same object again immediately), process(descriptor whose signal has no PTS), close(a previously seen descriptor, biased to recent ones, or a fresh one), open(). Oracle: invariants over the observable history by object identity, checked after EVERY call: Open() contains only successfully processed, not yet closed, not discarded, distinct descriptors in opening order; every closed descriptor was open, never closed before, closable under the transcribed rule table and the library's own CanClose (or equal, for explicit close), closed lists last-opened first; immediate re-processing => duplicate error and unchanged Open(); PTS-less => error, nothing closed, unchanged Open(); a recovered panic is a violation. Enumerated: all histories of length <= 4 over 9 descriptor kinds + 2 explicit closes. Non-trivial: the history contains a breakaway and, while it is pending, a descriptor that closes it, an explicit close, a second breakaway, a resumption, or an immediate re-processing.",
+	hx.Rec("C10").SetRule("cases: histories of 1..40 calls on one tracker: process(new descriptor: type from a 26-type alphabet covering every rule kind plus two types without rules, weighted towards breakaway/resumption/network/unscheduled; event id 1..3; segment number/expected 0..2; sub-segment fields on 0x34/0x36; half of the 0x40 descriptors (and 1 in 16 of the others) carry a stream-switch-shaped multiple-UPID list in one of five shapes with signal id 0..2; one descriptor in eight reaches the tracker inside a decorator type; one API-built descriptor in eight has the cancel indicator set; one signal in four gets part of its time from pts_adjustment; attached to a signal whose PTS repeats the previous one (<= 5 per PTS; API-built ones then share ONE signal object, as the descriptors of one decoded section do) or advances; built through the API or by decoding a reference encoding), process(the same object again immediately), process(descriptor whose signal has no PTS), close(a previously seen descriptor, biased to recent ones, or a fresh one), open(). Oracle: invariants over the observable history by object identity, checked after EVERY call (a second tracker holding one open program sits next to it and must not notice): Open() contains only successfully processed, not yet closed, not discarded, distinct descriptors in opening order; every closed descriptor was open, never closed before, closable under the transcribed rule table and the library's own CanClose (or equal, for explicit close), closed lists last-opened first; immediate re-processing => duplicate error and unchanged Open(); PTS-less => error, nothing closed, unchanged Open(); a recovered panic is a violation. Enumerated: all histories of length <= 4 over 9 descriptor kinds + 2 explicit closes. Non-trivial: the history contains a breakaway and, while it is pending, a descriptor that closes it, an explicit close, a second breakaway, a resumption, or an immediate re-processing.",
 		"the same object is re-submitted only immediately (the duplicate ring legitimately forgets after 10 signal times)",
 		"at most 5 descriptors per PTS value (the received list doubles per same-PTS descriptor: a cost issue outside this property)",
 		"a breakaway counts as open although Open() hides it while the blackout lasts; descriptors that vanish from Open() at a resumption count as discarded")
